@@ -33,6 +33,24 @@ func runC20(c *Ctx) {
 		c.Infra("gateway did not start: %s", g.ExitLine)
 		return
 	}
+	// history: the realm's KDCs were all down a moment ago (a request made then fails, with a
+	// response); now they are back
+	outage := ""
+	if c.T.Bool(1, 4) {
+		pl := c.T.Bytes(30+c.T.Choose(300), 0x7a)
+		kb := append(binary.BigEndian.AppendUint32(nil, uint32(len(pl))), pl...)
+		t1 := time.Now()
+		pre := c.W.Start(&env.HTTPReq{Name: "kp-pre", From: "10.5.0.2:52999", Method: "POST", Path: "/KdcProxy", Body: codec.KDCProxyMessage(kb, "", false), Header: [][2]string{{"Content-Type", "application/kerberos"}}})
+		c.W.WaitAll([]*env.Pending{pre}, 40*time.Second)
+		if pre.Res.Status == 0 || pre.Res.Status == 200 || time.Since(t1) > 15*time.Second {
+			c.S.Fail("C20", "outage-request", "a request made while every KDC of the realm refuses connections got status %d after %v (eof=%v timeout=%v)", pre.Res.Status, time.Since(t1).Round(time.Millisecond), pre.Res.EOF, pre.Res.Timeout)
+			return
+		}
+		gap := time.Duration(c.T.Choose(25)) * time.Second
+		c.S.Advance(gap)
+		outage = fmt.Sprintf("after-an-outage(%d at the time, %v ago) ", pre.Res.Status, gap)
+		c.S.Count("fault.kdc.outage_then_recovery")
+	}
 	// KDC behaviours per endpoint and protocol
 	var kdcs []*env.KDC
 	var kd []string
@@ -59,8 +77,18 @@ func runC20(c *Ctx) {
 	other := c.W.AddKDC("tcp", "kdc.other.test:88", "reply-close", []byte{0, 0, 0, 1, 9})
 	otherU := c.W.AddKDC("udp", "kdc.other.test:88", "reply-open", []byte{9})
 	// the request
-	payload := c.T.Bytes([]int{0, 1, 200, 1400, 1500, 9000, 65000, 131100}[c.T.Weighted(1, 1, 4, 2, 2, 2, 1, 1)], 0x73)
+	payload := c.T.Bytes([]int{0, 1, 200, 1400, 1500, 9000, 65000, 131100, 65503, 65504, 70000, 100000, 130000}[c.T.Weighted(1, 1, 4, 2, 2, 2, 1, 1, 1, 1, 1, 1, 1)], 0x73)
 	kerb := append(binary.BigEndian.AppendUint32(nil, uint32(len(payload))), payload...)
+	answeringSmall := answering // for the (small) concurrent requests
+	if len(payload) > 65507 {
+		// larger than any UDP datagram: only the TCP endpoints can answer this request
+		answering = 0
+		for _, k := range kdcs {
+			if k.Proto == "tcp" && strings.HasPrefix(k.Behave, "reply") {
+				answering++
+			}
+		}
+	}
 	realmKind := []string{"default", "configured", "unknown"}[c.T.Weighted(3, 3, 1)]
 	defect := []string{"", "", "", "", "GET", "no-length", "bad-der", "trailing", "short-kerb"}[c.T.Choose(9)]
 	if len(payload) > 131000 && defect != "GET" && defect != "no-length" {
@@ -102,7 +130,7 @@ func runC20(c *Ctx) {
 		req.Body = codec.KDCProxyMessage(kerb, "", false)
 		realmKind = "default"
 	}
-	descr := fmt.Sprintf("kdcs=%s request{realm=%s payload=%d defect=%q}", strings.Join(kd, " "), realmKind, len(payload), defect)
+	descr := outage + fmt.Sprintf("kdcs=%s request{realm=%s payload=%d defect=%q}", strings.Join(kd, " "), realmKind, len(payload), defect)
 	c.Res.CaseKey = descr
 	t0 := time.Now()
 	// companions: further well-formed requests for the default realm in flight at the same time
@@ -171,7 +199,7 @@ func runC20(c *Ctx) {
 			c.S.Fail("C20", "no-http-response:concurrent", "%s: concurrent request %d got no HTTP response (eof=%v timeout=%v)", sample, i, cr.EOF, cr.Timeout)
 			return
 		}
-		if answering == 0 {
+		if answeringSmall == 0 {
 			if cr.Status == 200 {
 				c.S.Fail("C20", "reply-invented", "%s: concurrent request %d: no KDC answers, yet 200", sample, i)
 				return
